@@ -108,11 +108,14 @@ def isAllGTE (a b : Coins) : Bool :=
 
 def hasSecurityVoting (kind : String) : Bool := Gen.Gov.securityVotingKinds.contains kind
 
-def activateVotingPeriod (e : Env) (g : State) (p : Proposal) : State :=
+/-- the proposal record after `ActivateVotingPeriod` -/
+def activated (e : Env) (g : State) (p : Proposal) : Proposal :=
   let p1 := { p with votingStart := e.t, votingEnd := e.t + g.params.votingPeriod }
-  if Gen.Gov.entersCertifierRound (hasSecurityVoting p.kind) p.status then setP g { p1 with status := 2 }
-  else if p.status == 2 then setP g { p1 with status := 3 }
-  else setP g { p1 with status := 3, depositEnd := e.t }
+  if Gen.Gov.entersCertifierRound (hasSecurityVoting p.kind) p.status then { p1 with status := 2 }
+  else if p.status == 2 then { p1 with status := 3 }
+  else { p1 with status := 3, depositEnd := e.t }
+
+def activateVotingPeriod (e : Env) (g : State) (p : Proposal) : State := setP g (activated e g p)
 
 def upsertDeposit (pid : Nat) (a : Addr) (amt : Coins) : List Deposit → List Deposit
   | [] => [{ pid := pid, depositor := a, amount := amt }]
@@ -169,7 +172,6 @@ def vote (w : World) (pid : Nat) (voter : Addr) (option : Nat) : Except Err Worl
   | none => err "gov:unknown-proposal"
   | some p =>
     if Gen.Gov.voteInactive p.status then err "gov:inactive-proposal"
-    else if !(Gen.Gov.validOption option) then err "basic:gov:invalid-vote"
     else if p.status == 2 && !(Gen.Gov.certifierRoundOption option) then err "gov:invalid-vote-certifier-round"
     else if p.status == 2 && !Cert.isCertifier w.c voter then err "gov:not-certifier"
     else if p.kind == "claim" && p.status == 3 && !isCertifiedIdentity w.c voter then err "gov:not-certified-identity"
